@@ -488,7 +488,14 @@ impl OutputFormatter for HtmlFormatter {
         let mut aggregate = AggregateStats::default();
         let (passed, warnings, failed, grandfathered) =
             results.iter().fold((0, 0, 0, 0), |(p, w, f, g), r| {
-                aggregate.accumulate(r.raw_stats());
+                // Line totals are sums over files: the "stats" of a structure violation hold a
+                // count of entries, not of lines.
+                if !matches!(
+                    r.violation_category(),
+                    Some(crate::checker::ViolationCategory::Structure { .. })
+                ) {
+                    aggregate.accumulate(r.raw_stats());
+                }
                 match r {
                     CheckResult::Passed { .. } => (p + 1, w, f, g),
                     CheckResult::Warning { .. } => (p, w + 1, f, g),
